@@ -108,6 +108,17 @@ def discover():
                         h.messages = msgs
                         h.invocation = '%s!(%s, %s);' % (attrs['macro'], a2['name'], args)
                         harnesses.append(h)
+    # `also_features=a,b` in a @file line: every harness of the file is ALSO run in a build of the crate with those cargo
+    # features (same function, second group) - code selected by #[cfg(feature = ..)] must satisfy the same contract
+    import copy
+    for h in list(harnesses):
+        af = files[h.file].get('also_features')
+        if af:
+            h2 = copy.copy(h)
+            h2.name = h.name + '__' + re.sub(r'[^a-z0-9]+', '_', af.lower())
+            h2.features = af
+            h2.scope = h.scope + ' [crate built with features %s]' % af
+            harnesses.append(h2)
     names = [h.name for h in harnesses]
     dup = set(n for n in names if names.count(n) > 1)
     if dup:
@@ -143,7 +154,7 @@ def inject(scratch_repo, files_needed, files_meta, selected=()):
     for fn in files_needed:
         meta = files_meta[fn]
         dst = os.path.join(hdir, fn)
-        inv = [h.invocation for h in selected if h.file == fn and h.invocation]
+        inv = sorted(set(h.invocation for h in selected if h.file == fn and h.invocation))
         open(dst, 'w').write(open(meta['path']).read() + '\n// ---- generated invocations ----\n' + '\n'.join(inv) + '\n')
         host = os.path.join(scratch_repo, meta['host'])
         if not os.path.exists(host):
